@@ -194,3 +194,25 @@ def validate_into(res, norm_path, module, cfg, checks, devs, tables_path, wd, ca
     for d, runs in out["used"].items():
         res.findings_used.setdefault(d, []).extend(runs)
     return out
+
+
+def prune(prop):
+    """Removes the bulky intermediate files of a run that found nothing (raw traces, case files, normalized traces,
+    validation shards); violations, model outputs and evidence stay."""
+    wd = os.path.join(WORK, prop)
+    if not os.path.isdir(wd):
+        return
+    for root, dirs, files in os.walk(wd, topdown=True):
+        if os.path.basename(root) == "violations":
+            dirs[:] = []
+            continue
+        for d in list(dirs):
+            if d in ("val", "norm", "norm-elect", "norm-dp") or d.startswith(("tv-", "dpv-", "dirs-", "wd")):
+                shutil.rmtree(os.path.join(root, d), ignore_errors=True)
+                dirs.remove(d)
+        for f in files:
+            if f.endswith(".ndjson"):
+                try:
+                    os.remove(os.path.join(root, f))
+                except OSError:
+                    pass
